@@ -324,4 +324,19 @@ META = {
         "technique": "Go race detector on barrier-released goroutine scripts; porcupine linearizability check of client-boundary histories; conservation monitors (cleanups, context identity)",
         "max_counters": [],
     },
+    "C15": {
+        "level": "exploration",
+        "race": True,
+        "evaluations": ["rounds"],
+        "required": ["rounds", "concurrent_checks", "draws_compared", "canary_race_reports", "ctor:Deferred", "ctor:Custom", "ctor:StringMatching", "ctor:Filter"],
+        "show": ["rounds", "concurrent_checks", "draws_compared", "race_reports_distinct", "canary_race_reports"],
+        "rule": "binary built with -race; every round builds a FRESH random generator tree (biased to lazily initialised nodes: Deferred, recursive trees, "
+                "Custom, Filter, Make, regexp generators with a per-round unique pattern) and releases 8-16 concurrent Checks (own TB each, same -rapid.seed) "
+                "from a barrier; a third of them call String() first, a third use the tree as a sub-generator first; monitors: race detector reports = 0, "
+                "every concurrent check's draws = the same check run alone on the used tree and on a freshly built equal tree, contract of every value, "
+                "Deferred constructor ran once; non-trivial+distinct = distinct shared generator expressions exercised",
+        "assumptions": COMMON_ASSUME + ["absence of races is established only for the interleavings the scheduler produced (first-use windows are hit by releasing all checks at once on a fresh tree)"],
+        "level_text": "Race detector + differential (concurrent vs solo) monitor over hundreds of fresh shared generator trees.",
+        "technique": "Go race detector over barrier-released concurrent Checks on fresh shared generators; differential draw-log monitor against solo runs",
+    },
 }
